@@ -4,18 +4,26 @@ Histories may contain several saves ("save" tokens + the implicit final one); th
 written: structure edited at some point before that save => merged image = composite of the layers in that file;
 never edited => image-data section byte-identical to the original. Which of the two applies is decided by the harness's
 own classification of the calls made (STRUCTURAL_NAMES), not by the flag the implementation keeps.
+
+"equals the composite of the saved layers" is a theorem (Props/C17Pixels.lean: merged_equals_composite ... over C11's compositor
+model and the arithmetic of _merged_planes, Model/MergedPixels.lean); it is tied to the source by Generated/MergedPixels.lean
+(extract_c17: AST of _merged_planes / save / composite) and by the pixel correspondence of `run_pixel_cases` below
+(harness/merged_pixels.py: generated documents, every stored sample against the model's bytes), and searched on the real code
+with a reference that uses neither the library's compositor nor the Lean model.
 """
 from __future__ import annotations
 
 import io
 import json
 import struct
+from fractions import Fraction
 
 import numpy as np
 from PIL import Image
 
 import core
 import extract_c07
+import extract_c17
 import pixels_common as pc
 from core import err_class
 
@@ -26,15 +34,15 @@ FIXTURES_QUICK = ["1layer.psd", "2layers.psd", "group.psd", "16bit5x5.psd", "32b
                   "vector-mask2.psd"]
 STRUCT_OPS = ["append", "insert", "pop-append", "rotate", "remove", "delitem", "setitem", "clear", "moveUp", "moveDown",
               "moveToGroup", "groupLayers", "deleteLayer", "newGroupInParent", "extend"]
-QUIET_OPS = ["rename", "setVisible", "setOpacity", "setBlendMode", "setOffset", "readTopil", "readNumpy",
+QUIET_OPS = ["rename", "setVisible", "setOpacity", "setBlendMode", "setOffset", "setCompatibilityMode", "readTopil", "readNumpy",
              "readComposite", "readForcedComposite", "readIterate", "readBbox", "readSave"]
-OP_MODEL_NAME = {"pop-append": "pop,append", "rotate": "pop,insert"}
+OP_MODEL_NAME = {"pop-append": "pop,append", "rotate": "pop,insert", "hideAll": "setVisible"}
 # the token "save" inside a history is a CHECKED save: the file it writes is examined like the final one
 # (every history ends with an implicit checked save). For the model it is `readSave`: not structural, and
 # it does not reset the flag.
 SAVE = "save"
 ATTR_OPS = ["setVisible", "setOpacity", "setOffset", "setBlendMode", "rename"]
-VISIBLE_ATTR_OPS = ["setVisible", "setOpacity", "setOffset"]
+VISIBLE_ATTR_OPS = ["setVisible", "setOpacity", "setOffset", "hideAll"]
 # what the PROPERTY counts as an edit of the layer structure (model op names) - the harness's own
 # classification of the public calls, independent of the flag the implementation keeps
 STRUCTURAL_NAMES = {"setitem", "delitem", "append", "extend", "insert", "remove", "pop", "clear", "deleteLayer",
@@ -199,6 +207,10 @@ def apply_op(psd, op, rng, img_seed):
         psd.extend([PixelLayer.frompil(im, psd, "ext", 0, 0)])
     elif op == "newGroupInParent":
         Group.new("g", parent=psd)
+    elif op == "setCompatibilityMode":
+        # a rendering configuration of the object in memory: nothing of it is stored, no layer is added / removed / reordered
+        from psd_tools.constants import CompatibilityMode
+        psd.compatibility_mode = rng.choice(list(CompatibilityMode))
     elif not layers:
         return None
     elif op == "pop-append":
@@ -230,6 +242,10 @@ def apply_op(psd, op, rng, img_seed):
         layers[-1].name = "renamed"
     elif op == "setVisible":
         layers[-1].visible = not layers[-1].visible
+    elif op == "hideAll":
+        # no visible layer left at the top level (an attribute edit of each)
+        for l in layers:
+            l.visible = False
     elif op == "setOpacity":
         layers[-1].opacity = 128
     elif op == "setBlendMode":
@@ -610,16 +626,226 @@ def make_api_doc(mode, depth, comp, size, op_seed, store="plain"):
     return p, raw
 
 
+# ---- the merged image sample by sample, on generated documents (harness/merged_pixels.py) ----------------
+def pixel_tag(case):
+    return f"{case['mode']}-depth{case['depth']}/{'transparency-plane' if case['plane'] else 'flattened+kept-plane' if case.get('kept') else 'flattened'}"
+
+
+def eval_pixel_case(ctx, case, st, shrink=True):
+    """one generated document + one structural edit + save + reopen: property oracle (independent reference), correspondence
+    with the model sample by sample, correspondence of the sample arithmetic on the captured composite"""
+    import comp_common as cc
+    import merged_pixels as mpx
+    tag = pixel_tag(case)
+    cj = mpx.case_json(case)
+    res = mpx.eval_case(case)
+    ctx.corr_cases += 1
+    if res["error"]:
+        stage, cls, msg = res["error"]
+        if stage in ("build", "edit"):
+            ctx.skipped.append(f"pixel case {case['shape']}/{tag}/{case['edit']}: {stage} raises {cls} ({msg[:80]})") if len(ctx.skipped) < 40 else None
+            return "skipped"
+        if stage == "extraction":
+            ctx.disagree(f"the layers of the reopened file cannot be read with the compositor's getters: {cls}: {msg}", cj)
+            return "extraction failed"
+        ctx.fail(f"C17/{'save-raises' if stage == 'save' else 'unreadable'}/{tag}/{cls}",
+                 f"{'save()' if stage == 'save' else 'ImageData.get_data of the reopened file'} after a structural edit raises {cls}: {msg}",
+                 cj, [cls, msg], "a file whose merged image can be read")
+        return stage + " raises"
+    W, H, depth, nch = res["W"], res["H"], res["depth"], res["nch"]
+    if case["shape"] == "witness-black-128" and res["stored"] != [bytes([127])]:
+        ctx.disagree("the witness of flatten_uses_alpha_not_shape is not reproduced by the real code (expected the sample 127)",
+                     dict(cj, stored=[p.hex() for p in res["stored"]]))
+    if not res["dirty"]:
+        ctx.disagree("the structural edit did not set the flag (model: dirtyAfter)", cj)
+    ok, detail = res["geometry"]
+    if not ok:
+        ctx.fail(f"C17/plane-count/{tag}/wrong-size", "the merged image written after a structural edit does not have the planes and "
+                 "size the header declares", cj, detail, {"planes": nch, "bytes_per_plane": W * H * depth // 8})
+    if not res["has_preview"]:
+        ctx.fail(f"C17/preview-flag/{tag}/has_preview-false", "the reopened document says it has no merged image although the "
+                 "structure was edited and saved", cj, False, True)
+    # the call save() makes into the compositor (run-time side of `composite_call_tied`)
+    calls = res["calls"]
+    if len(calls) != 1 or calls[0][0] != {"force": True, "nargs": 1}:
+        ctx.disagree("save() does not call composite(psd, force=True) exactly once (model: compositePsd / Generated compositeCall)",
+                     dict(cj, calls=[k for k, _ in calls]))
+    mt, ids, lc = res["meta"]
+    reqs = [("merged.routes", res["cmode"], nch, depth, "1" if mt else "0", ",".join(map(str, ids)) or "-", lc,
+             "1" if res["old"] is not None else "0")]
+    reqs += res["reqs"]
+    # sample arithmetic alone: every value the captured composite holds, through the model's flatten / plane()
+    cap = calls[-1][1] if calls else None
+    npx = len(res["pixels"])
+    nsamp = 0
+    if cap is not None and cap[0].shape[:2] == (H, W) and cap[2].shape[:2] == (H, W):
+        ccol, _cs, calp = cap
+        for (x, y) in res["pixels"]:
+            for k in range(ccol.shape[2]):
+                reqs.append(("mergedpx.sample", depth, mpx.f32_rat(ccol[y, x, k]), mpx.f32_rat(calp[y, x, 0])))
+                nsamp += 1
+    answers = ctx.driver().batch(reqs)
+    routes = answers[0]
+    result = "equal to the model"
+    if routes[0] != "ok" or routes[1] == "none":
+        ctx.disagree("model: no regeneration for this document (" + "/".join(routes) + ")", cj)
+        return "no routes"
+    rs = routes[1].split(";")
+    st["routes"][routes[1]] = st["routes"].get(routes[1], 0) + 1
+    # ---- correspondence: every stored sample against the model's bytes (saved layers -> compositeDoc -> flatten -> plane())
+    if res["nlayers"]:
+        bad, cnt = mpx.compare_with_model(case, res, routes[1], answers[1:1 + len(res["reqs"])])
+        for k, v in cnt.items():
+            if k == "max-excess":
+                st["max_excess"] = max(st["max_excess"], v)
+            else:
+                st["cnt"][k] = st["cnt"].get(k, 0) + v
+        if bad:
+            ctx.disagree("stored samples differ from the model (Model/MergedPixels.lean on the per-pixel tree of the saved layers)",
+                         dict(cj, routes=routes[1], first=bad[:3], differing=len(bad)))
+            result = "differs from the model"
+    # ---- correspondence of the arithmetic: captured float32 composite -> model bytes
+    if nsamp:
+        sa = answers[1 + len(res["reqs"]):]
+        size = depth // 8
+        n_col = cap[0].shape[2]
+        worst = None
+        for pi, (x, y) in enumerate(res["pixels"]):
+            i = y * W + x
+            for k, r in enumerate(rs):
+                if r[0] in "FC":
+                    ch = int(r[1:])
+                    if ch >= n_col:
+                        continue
+                    a = sa[pi * n_col + ch]
+                elif r == "A":
+                    a = sa[pi * n_col]
+                else:
+                    continue
+                if a[0] != "ok" or len(a) < 6:
+                    worst = {"what": "model answers " + "/".join(a[:2])}
+                    continue
+                if r[0] == "F":
+                    hexes, exact = a[1], mpx.frac(a[5])
+                elif r[0] == "C":
+                    hexes, exact = a[2], Fraction(float(cap[0][y, x, int(r[1:])]))
+                else:
+                    hexes, exact = a[3], Fraction(float(cap[2][y, x, 0]))
+                got = res["stored"][k][i * size:(i + 1) * size]
+                st["arith"]["samples"] += 1
+                if got.hex() == hexes:
+                    st["arith"]["equal"] += 1
+                    continue
+                if depth == 32:
+                    d = abs(float(np.frombuffer(got, ">f4")[0]) - float(exact))
+                    okk = r[0] == "F" and d <= mpx.DELTA_ARITH
+                else:
+                    g = int.from_bytes(got, "big")
+                    d = abs(float(exact) * mpx.SCALE[depth] - g) - 0.5
+                    okk = d <= mpx.DELTA_ARITH * mpx.SCALE[depth]
+                if okk:
+                    st["arith"]["within float32 rounding of flatten / scale"] += 1
+                else:
+                    worst = {"what": "stored sample is not plane() of the captured composite", "plane": k, "route": r, "pixel": [x, y],
+                             "stored": got.hex(), "model": hexes}
+        if worst:
+            ctx.disagree("sample arithmetic differs from the model (flatten / np.round / scale / dtype on the captured composite)",
+                         dict(cj, routes=routes[1], first=worst))
+            result = "differs from the model"
+    # ---- the property itself, against the independent reference
+    v = mpx.reference_verdict(case, res)
+    recipe2 = mpx.edit_recipe(case["recipe"], case["edit"])
+    if res["ref"] is not None:
+        sc, ss, sal, uns = res["ref"]
+        semi = bool(((ss - sal > 0.02) & (sal < 0.98)).any())
+        ctx.hist("pixel_cases_translucent_over_empty_canvas", "some pixel has coverage > alpha < 1" if semi else "none")
+        st["checked_pixels"] += int((~uns).sum())
+    novis = bool(recipe2) and not any(n.get("visible", True) for n in recipe2)
+    ctx.hist("pixel_cases", f"{tag}/{case['edit']}" + ("/no visible top-level layer" if novis else "") + ("/layerless" if not recipe2 else "")
+             + ("/stored without composite" if case.get("store") == "no-composite" else ""))
+    ctx.hist("pixel_case_features", cc.feature_sig({"recipe": recipe2, "size": case["size"], "mode": case["mode"]}) if recipe2 else "layerless")
+    if v:
+        what = v["what"]
+        failing = cj
+        if shrink and st["shrunk"] < 3 and what != "geometry":
+            st["shrunk"] += 1
+
+            def fails(d, what=what):
+                c2 = dict(case, recipe=d["recipe"])
+                if len(c2["recipe"]) < (2 if case["edit"] in ("del-top", "del-bottom") else 1):
+                    return False
+                r2 = mpx.eval_case(c2)
+                if r2["error"]:
+                    return False
+                v2 = mpx.reference_verdict(c2, r2)
+                return bool(v2) and v2["what"] == what
+            small = cc.shrink_doc({"recipe": case["recipe"], "size": case["size"], "mode": case["mode"]}, fails, budget=40)
+            if cc.count_layers(small["recipe"]) < cc.count_layers(case["recipe"]) or True:
+                c2 = dict(case, recipe=small["recipe"])
+                r2 = mpx.eval_case(c2)
+                v2 = None if r2["error"] else mpx.reference_verdict(c2, r2)
+                if v2 and v2["what"] == what:
+                    failing, v = dict(mpx.case_json(c2), shrunk_from_layers=cc.count_layers(case["recipe"])), v2
+        ctx.fail(f"C17/merged-vs-reference/{tag}/{what}-differs",
+                 "the merged image of the saved file differs from the composite of its layers (published compositing model over the "
+                 "saved layers, flattened on white with the alpha; tolerance: C11's plus half a quantisation step)",
+                 failing, {k: v[k] for k in v if k != "what"}, "stored = quantise(flatten(composite of the saved layers))")
+        return "differs from the reference"
+    return result
+
+
+def run_pixel_cases(ctx, src, note):
+    import merged_pixels as mpx
+    rng = ctx.rng
+    nprng = np.random.RandomState(rng.randrange(2 ** 32))
+    cases = mpx.forced_cases()
+    corpus = core.VERIF / "harness" / "corpus" / "C17.json"
+    if corpus.exists():
+        cases += [mpx.case_from_json(c) for c in json.loads(corpus.read_text()) if c.get("kind") == "pixdoc"]
+    cases += [mpx.random_case(rng, nprng) for _ in range(110 if ctx.quick else 1500)]
+    st = {"cnt": {}, "arith": {"samples": 0, "equal": 0, "within float32 rounding of flatten / scale": 0}, "max_excess": 0.0,
+          "routes": {}, "shrunk": 0, "checked_pixels": 0}
+    # np.round / np.clip / scale / np.float32 against the model's `code` and `f32Bits`
+    reqs, exp = mpx.rounding_law_requests(rng)
+    nbad = 0
+    for rq, a, e in zip(reqs, ctx.driver().batch(reqs), exp):
+        ctx.corr_cases += 1
+        if a[0] != "ok" or a[1] != e:
+            nbad += 1
+            if nbad <= 3:
+                ctx.disagree("rounding law: NumPy and the model differ (np.round half-even / np.clip / scale / float32)",
+                             {"request": list(rq), "numpy": e, "model": list(a)})
+    ctx.hist("rounding_law_requests", f"{len(reqs)} compared, {nbad} differ")
+    for case in cases:
+        key = json.dumps(mpx.case_json(case), sort_keys=True)
+        ctx.count(("pixdoc", hash(key)), nontrivial=len(case["recipe"]) > 1)
+        res = eval_pixel_case(ctx, case, st)
+        note(f"generated {pixel_tag(case)}", res)
+    ctx.sample({"pixel_case": {k: v for k, v in mpx.case_json(cases[-1]).items() if k != "recipe"}})
+    ctx.extra["pixel_correspondence"] = {
+        "cases": len(cases), "stored samples compared with the model (whole pipeline)": st["cnt"],
+        "largest float32 deviation beyond the rounding interval, value units": st["max_excess"],
+        "allowed": {"DELTA": mpx.DELTA, "DELTA_ARITH": mpx.DELTA_ARITH, "DELTA32": mpx.DELTA32},
+        "stored samples compared with plane() of the captured composite": st["arith"],
+        "routes seen": st["routes"], "pixels compared with the independent reference": st["checked_pixels"]}
+
+
+
 # ---- the check -------------------------------------------------------------------------------
 def run(ctx: core.Run):
     ctx.regenerate(extract_c07.gen_pixels)
-    ctx.prove(["PsdVerif.Props.C17"])
+    src = ctx.regenerate(extract_c17.gen_merged_pixels)
+    ctx.prove(["PsdVerif.Props.C17", "PsdVerif.Props.C17Pixels"])
     ctx.trusted_base += [
         "Lean 4.33 kernel; axioms allowed: propext, Classical.choice, Quot.sound (audited per theorem)",
         "Model/Merged.lean: hand transliteration of PSDImage.save / _merged_planes / ImageData.get_data / set_data and of "
         "what sets _updated_layers; tied by this run's correspondence check (dirty flag per history before and after every "
         "save, source of every stored plane against the captured composite)",
-        "the numeric composite (C11) and the channel codecs (C04) are parameters of the model",
+        "Model/MergedPixels.lean: hand transliteration of the numbers of _merged_planes (the composite call, flatten with the alpha, "
+        "np.round half-to-even, scale, dtype, binary32) - tied by Generated/MergedPixels.lean (AST, every run) and by the pixel "
+        "correspondence (every stored sample of generated documents against the model's bytes)",
+        "Model/Composite.lean (C11) is the numeric composite; the channel codecs (C04) are parameters of the model",
+        "comp_common.XDoc: the per-pixel layer tree is read from the REOPENED file with the getters the compositor uses",
         "harness/pixels_common.section_geometry: independent reading of RAW / RLE (row table + PackBits) / ZIP sections",
     ]
     ctx.assumptions += [
@@ -627,7 +853,11 @@ def run(ctx: core.Run):
         "document size (checked on every case through the captured arrays)",
         "Quant.Lawful: a sample is written as depth/8 bytes",
         "decompress(compress(x)) = x for the geometry used (C04)",
-        "merged_equals_composite is an oracle on the real code only and depends on C11 (the composite itself is not verified here)",
+        "merged_equals_composite is a theorem about the models (C17's save / _merged_planes composed with C11's compositor); the code "
+        "computes in float32 what the models compute over Rat: stored samples are compared exactly, a sample whose exact value is "
+        "within 1e-6 of a rounding boundary may be one code off",
+        "effects, vector masks, fills, strokes, adjustment layers, 'real' combined masks are outside the compositor model (as in C11); "
+        "for documents with such layers only the oracle on the real code applies",
     ]
     from psd_tools import PSDImage
     from psd_tools.constants import Compression
@@ -665,6 +895,15 @@ def run(ctx: core.Run):
         # the shapes that must be there whatever the seed draws
         for shape in ("edit-save-attr", "save-save", "attr-save-attr"):
             api_cases.append((mode, 8, rng.choice(comps), (5, 4), two_save_history(rng, shape), "plain"))
+        # a translucent layer (opacity 128: coverage 1, alpha < 1) sticking out over empty canvas; no visible top-level layer
+        # left after the edit; the choice of a compatibility mode alone (NOT a structural edit: byte-for-byte preservation),
+        # alone on a document stored without a composite, and after a structural edit
+        api_cases.append((mode, 8, rng.choice(comps), (5, 4), ["append", "setOpacity"], "plain"))
+        api_cases.append((mode, rng.choice([8, 16, 32]), rng.choice(comps), (5, 4), ["insert", "hideAll"], "plain"))
+        api_cases.append((mode, 8, rng.choice(comps), (4, 4), ["append", "hideAll", SAVE, "setVisible"], "plain"))
+        api_cases.append((mode, rng.choice([8, 16, 32]), rng.choice(comps), (4, 4), ["setCompatibilityMode"], "plain"))
+        api_cases.append((mode, 8, rng.choice(comps), (4, 4), ["setCompatibilityMode", SAVE, "setOpacity"], "no-composite-flag"))
+        api_cases.append((mode, 8, rng.choice(comps), (4, 4), ["append", "setCompatibilityMode"], "plain"))
     # the same documents stored the way other writers store them (every mode x depth x storage that applies, whatever the
     # seed draws): a merged transparency that survives the edit, layers in Lr16 / Lr32, no merged image declared - each with
     # a structural edit, a quiet history and (thorough) a history with two saves
@@ -742,7 +981,7 @@ def run(ctx: core.Run):
         if fh["width"] * fh["height"] > area_limit:
             continue
         hist = [[rng.choice(["pop-append", "rotate", "remove", "groupLayers"])],
-                [rng.choice(QUIET_OPS[:-1]) for _ in range(2)], ["append"],
+                [rng.choice(QUIET_OPS[:-1]) for _ in range(2)], ["append"], ["setCompatibilityMode"],
                 two_save_history(rng, rng.choice(["edit-save-attr", "edit-save-attr", "attr-save-attr", "save-save"]))]
         if not quick:
             hist += [[rng.choice(STRUCT_OPS)], [rng.choice(STRUCT_OPS), rng.choice(QUIET_OPS)], [rng.choice(QUIET_OPS)] * 2,
@@ -784,6 +1023,9 @@ def run(ctx: core.Run):
         if tuple(a[:len(impl)]) != impl:
             ctx.disagree("get_data geometry differs from the model", {"request": rq[1:], "impl": impl, "model": a})
 
+    # ---------------- the merged image, sample by sample, on generated documents
+    run_pixel_cases(ctx, src, note)
+
     ctx.rule = (
         "API-created documents {L, LA, RGB, RGBA, CMYK, CMYK+alpha} x depth {8,16,32} x merged-image compression "
         "{RAW, RLE, ZIP, ZIP+prediction} with one imported layer, saved and reopened, then a seeded history that does "
@@ -797,20 +1039,34 @@ def run(ctx: core.Run):
         "test corpus with the same kinds of history, among them (searched recursively, classified from the record: "
         "histograms.fixture_storage_class) those stored without a merged image and those whose merged transparency survives an edit. "
         "Failing histories are shrunk (ddmin over the operations, same signature). "
+        "Generated documents (harness/merged_pixels.py): recipes of the compositing checks (1-6 layers, groups, raster masks with "
+        "density, clip runs, opacity / fill, knockout, hidden layers, layers straddling / beyond / outside the canvas, twelve continuous "
+        "blend modes) x {L, RGB, CMYK} x depth {8, 16, 32} x {no extra plane, transparency plane} x merged codec x {plain, stored "
+        "without composite} x one structural edit {touch, rotate, delete bottom / top, hide every top-level layer, hide the top layer, "
+        "top opacity 100, wrap the top layer in a group, clear}; whatever the seed: translucent layers over empty canvas through "
+        "opacity / fill / mask density, no visible top-level layer after the edit, a visible layer in a hidden group, layers beyond the "
+        "canvas, an emptied document; every stored sample is compared with the model, every pixel with the independent reference. "
         "Each case = (document, history); distinct = distinct (document configuration, history) tuples."
     )
     ctx.model_coverage = {
         "modelled": ["PSDImage.save (dirty flag, has_composite)", "PSDImage._merged_planes (supported modes/depths, source "
                      "of every plane, flattening decision)", "ImageData.set_data / get_data geometry per compression",
                      "what sets _updated_layers"],
-        "parameters": ["composite(force=True) (C11)", "sample quantisation", "channel codecs (C04)"],
+        "modelled_pixels": ["composite(self, force=True): backdrop, viewport, filter, the layerless branch", "flattening on white with the "
+                            "alpha", "plane(): np.round half-even, clip, scale 255 / 65535, big-endian, binary32", "row-major planes",
+                            "Compositor (C11 model)"],
+        "parameters": ["channel codecs (C04)", "blend functions (C12: any B with BlendOk)"],
         "opaque": ["merged image of BITMAP/INDEXED/MULTICHANNEL/DUOTONE/LAB documents (left as it is by save())"],
     }
     ctx.extra["results"] = results
     ctx.notes += [
-        "merged_equals_composite is evaluated on the real code only: reopened numpy()/topil() against the numeric "
-        "composite(force=True) of the reopened (saved) layers, compared as rendered on white, 1 LSB (numpy) / 2 LSB (topil); "
-        "it depends on C11.",
+        "merged_equals_composite: theorem (Props/C17Pixels.lean) + pixel correspondence (extra.pixel_correspondence) + two oracles on the "
+        "real code: reopened numpy()/topil() against composite(force=True) of the reopened layers (histories on API documents and "
+        "fixtures, 1-2 LSB), and the stored samples of generated documents against a float64 implementation of the published model "
+        "over the recipe (independent of the library's compositor).",
+        "a document WITHOUT layers (everything deleted) is not composited: composite() returns the stored image, so the regenerated "
+        "merged image is the old one re-quantised (theorem layerless_document_keeps_image); the independent reference is not applied "
+        "to that case (the image data is the document).",
         "documents whose extra channel is not taken for the transparency by the readers (layers present, no "
         "merged-transparency block) keep that channel as it is: it is not derived from the layers.",
         "several saves: a document whose structure was edited regenerates on every later save (theorems save_keeps_dirty, "
@@ -820,7 +1076,7 @@ def run(ctx: core.Run):
         "nothing structural was edited), so it is checked as byte identity and not flagged.",
     ]
     if ctx.tier == "thorough":
-        ctx.recheck(["PsdVerif.Props.C17"])
+        ctx.recheck(["PsdVerif.Props.C17", "PsdVerif.Props.C17Pixels"])
 
 
 def replay(ctx, data):
@@ -829,7 +1085,12 @@ def replay(ctx, data):
     from psd_tools.api.layers import PixelLayer
     inp = data.get("input") or {}
     print("replaying", data.get("signature"))
-    if inp.get("kind") == "api":
+    if inp.get("kind") == "pixdoc":
+        import merged_pixels as mpx
+        st = {"cnt": {}, "arith": {"samples": 0, "equal": 0, "within float32 rounding of flatten / scale": 0}, "max_excess": 0.0,
+              "routes": {}, "shrunk": 0, "checked_pixels": 0}
+        print("result:", eval_pixel_case(ctx, mpx.case_from_json({k: v for k, v in inp.items() if k != "shrunk_from_layers"}), st, shrink=False))
+    elif inp.get("kind") == "api":
         def make():
             p, raw = make_api_doc(inp["mode"], inp["depth"], Compression(inp["compression"]), inp["size"], inp["op_seed"],
                                   inp.get("store", "plain"))
